@@ -211,6 +211,23 @@ func TestVerifHs13Masks(t *testing.T) {
 			}
 		}
 	}
+	// multi-datagram final flights: every single datagram and every pair of datagrams of the server flight and of
+	// the client's final flight lost or late (the peer acknowledges the part it received)
+	if v, ok := hs13Variant("v13-hrr-clientauth-mtu450"); ok {
+		c := hs13Canon(t, v)
+		idx := append(hs13Find(c, hs13IsServerFlight4), hs13Find(c, hs13IsClientFinal)...)
+		for a := 0; a < len(idx); a++ {
+			for _, act := range []string{"drop", "late:1500", "hold:3"} {
+				jobs = append(jobs, hs13Job{v, hs13MaskAt(idx[a:a+1], act), opt})
+			}
+			for b := a + 1; b < len(idx); b++ {
+				jobs = append(jobs, hs13Job{v, hs13MaskAt([]int{idx[a], idx[b]}, "drop"), opt})
+				m := hs13MaskAt([]int{idx[a], idx[b]}, "drop")
+				m[idx[a]] = "late:1500"
+				jobs = append(jobs, hs13Job{v, m, opt})
+			}
+		}
+	}
 	// every pair of faults (drop or long delay) over the first datagrams of the base variants
 	np := 10
 	if vIsThorough() {
